@@ -28,6 +28,8 @@ RULES = ["DIM.D1", "DIM.D2", "DIM.D3", "DIM.LOG", "DIM.SHAPE", "DIM.ABS"]
 def run(P, R, tier):
     n, rets = dimrun.route(P, R, ALL, rules=RULES)
     R.floor("DIM obligations", n, 150)
+    from ..engines import traps as _traps
+    _traps.check(P, R, ['gmm', 'kmeans'], scope='(gmm:(?!GMMStats\\.(load|save|from_hdf5|__eq__|is_similar_to)|GMMMachine\\.(load|save|from_hdf5|__eq__|is_similar_to))|kmeans:|wccn:|whitening:|ivector:(e_step|m_step|compute_|IVectorMachine\\.(fit|project))|linear_scoring:)')
 
 
 EXPLANATION += ' Also: (DIM.ABS) no dimensioned quantity is compared with an absolute literal or tested with an absolute tolerance (np.isclose / allclose defaults).'
